@@ -18,7 +18,7 @@ func init() {
 
 func c06Scenarios(tier string) []e3Scenario {
 	var out []e3Scenario
-	sets := [][]string{{"one", "two"}, {"one", "one"}, {"one", "404"}, {"two", "plain"}, {"405", "two"}}
+	sets := [][]string{{"one", "two"}, {"one", "one"}, {"one", "404"}, {"two", "plain"}, {"405", "two"}, {"plain", "plain"}}
 	bound := 2
 	if tier == "thorough" {
 		sets = append(sets, []string{"one", "two", "one"}, []string{"one", "two", "404"}, []string{"two", "plain", "405"})
